@@ -11,13 +11,14 @@ working (non-displayed) and displayed memory.
 namespace Zvbi.Props.C08Paint
 open Zvbi.Cc Zvbi.Gen.Cc
 
-/-- **edm_clears_displayed, every mode.**  Erase Displayed Memory runs `eraseDisplayed` on the addressed channel:
+/-- **edm_clears_displayed, every mode.**  Erase Displayed Memory runs `eraseDisplayed` on channel `edmChan chan` (the
+addressed channel, resp. - with the repair of finding F73, `edmEnmOnCaption` - always the caption channel of the data channel):
 the displayed memory becomes blank and one caption event is raised; in pop-on mode the non-displayed memory is
 untouched; in EVERY OTHER mode (paint-on, roll-up, text, none) libzvbi's working copy is blank as well, so the
 next `update()` has nothing to bring back. -/
 theorem edm_clears_displayed (s : St) (c1 c2 : Nat) (f2 : Bool) (h1 : c1 &&& 7 = 4 ∨ c1 &&& 7 = 5) (h2 : c2 < 0x40)
     (h3 : c2 &&& 15 = 12) :
-    captionCommand s c1 c2 f2 = s.modCh (cmdChan s c1 f2) eraseDisplayed ∧
+    captionCommand s c1 c2 f2 = s.modCh (edmChan (cmdChan s c1 f2)) eraseDisplayed ∧
     ∀ ch, ChInv ch →
       (eraseDisplayed ch).displayed = List.replicate (rows * columns) ch.ts ∧
       (eraseDisplayed ch).nev = ch.nev + 1 ∧
@@ -48,17 +49,17 @@ theorem edm_clears_displayed (s : St) (c1 c2 : Nat) (f2 : Bool) (h1 : c1 &&& 7 =
     rw [List.getElem?_eq_none (by omega), List.getElem?_eq_none (by rw [List.length_replicate, rows_eq, columns_eq]; omega)]
 
 /-- **the hidden working copy rule, over arbitrary continuations.**  Take any decoder state with the invariant,
-an EDM pair addressing channel `i` whose mode is not pop-on, and replace that channel's 15 x 34 caption cells - in
+an EDM pair acting on a channel (`edmChan (cmdChan ..)`) whose mode is not pop-on, and replace that channel's 15 x 34 caption cells - in
 BOTH memories - by anything at all (`SameButCells`).  After the EDM the two decoder states are equal, hence every
 continuation `ops` (byte pairs of both fields, fetches, channel switches) produces the same decoder state, the
 same fetched pages and the same events: nothing written before an EDM can ever come back. -/
 theorem edm_hidden_copy_rule (s : St) (hs : Inv s) (c1 c2 : Nat) (f2 : Bool) (h1 : c1 &&& 7 = 4 ∨ c1 &&& 7 = 5)
-    (h2 : c2 < 0x40) (h3 : c2 &&& 15 = 12) (a b : Channel) (ha : s.chans[cmdChan s c1 f2]? = some a)
+    (h2 : c2 < 0x40) (h3 : c2 &&& 15 = 12) (a b : Channel) (ha : s.chans[edmChan (cmdChan s c1 f2)]? = some a)
     (hb : ChInv b) (hab : SameButCells a b) (hm : a.mode ≠ .popOn) (ops : List Op) :
-    ops.foldl step (captionCommand { s with chans := s.chans.set (cmdChan s c1 f2) b } c1 c2 f2) =
+    ops.foldl step (captionCommand { s with chans := s.chans.set (edmChan (cmdChan s c1 f2)) b } c1 c2 f2) =
     ops.foldl step (captionCommand s c1 c2 f2) := by
   rw [dispatch_edm s c1 c2 f2 h1 h2 h3, dispatch_edm _ c1 c2 f2 h1 h2 h3]
-  show ops.foldl step (({ s with chans := s.chans.set (cmdChan s c1 f2) b } : St).modCh (cmdChan s c1 f2) eraseDisplayed) = _
+  show ops.foldl step (({ s with chans := s.chans.set (edmChan (cmdChan s c1 f2)) b } : St).modCh (edmChan (cmdChan s c1 f2)) eraseDisplayed) = _
   rw [modCh_edm_forgets ha (hs.chs a (List.mem_of_getElem? ha)) hb hab hm]
 
 set_option maxRecDepth 100000 in
